@@ -387,3 +387,64 @@ Proof.
     + left. now rewrite <- X.
     + right. inversion X; subst. exact Ht.
 Qed.
+
+(* the commit a Checkout asks for *)
+Definition checkout_target (o : copts) (s : state) : option Z :=
+  if (co_hash o =? -1)%Z
+  then (if co_create o then head_commit s else lookup (co_branch_name o) (refs s))
+  else Some (co_hash o).
+
+Lemma checkout_pre_target : forall o s c m from s2,
+  checkout_pre o s = (None, ((c, m, from), s2)) -> checkout_target o s = Some c.
+Proof.
+  intros o s c m from s2 H. unfold checkout_pre in H.
+  destruct (co_validate o); [now inversion H|].
+  destruct (create_branch o (co_branch_name o) s) as [e1 [h sa]] eqn:Ec.
+  destruct (create_branch_spec _ _ _ _ _ _ Ec) as (A1 & A2 & A3 & A4 & A5 & A6 & A7 & A8).
+  destruct e1; [now inversion H|].
+  destruct (resolve_commit (co_branch_name o) h sa) as [[e2|] c1] eqn:Er; [now inversion H|].
+  assert (Hc : c1 = c).
+  { destruct (match co_mode o with Hard => head_tree sa | _ => HTNone end); try (now inversion H);
+    (destruct (move_head o (co_branch_name o) h c1 sa) as [[e3|] sb]; now inversion H). }
+  subst c1. clear H.
+  unfold resolve_commit in Er.
+  destruct (if (h =? -1)%Z then lookup (co_branch_name o) (refs sa) else Some h) as [c2|] eqn:E2; [|now inversion Er].
+  assert (c2 = c) by (destruct (tree_of sa c2); now inversion Er). subst c2.
+  unfold checkout_target. destruct (co_create o) eqn:Ecr.
+  - destruct (A8 eq_refl eq_refl) as (B1 & B2 & B3 & B4).
+    destruct (co_hash o =? -1)%Z eqn:Ez.
+    + apply Z.eqb_eq in Ez. rewrite (B3 Ez). destruct (h =? -1)%Z.
+      * rewrite B2, lookup_insert_eq in E2. exact E2.
+      * exact E2.
+    + apply Z.eqb_neq in Ez. rewrite <- (B4 Ez).
+      assert ((h =? -1)%Z = false) as X by (apply Z.eqb_neq; rewrite (B4 Ez); exact Ez).
+      now rewrite X in E2.
+  - destruct (A6 eq_refl) as (-> & -> & _). exact E2.
+Qed.
+
+(* a successful Checkout that runs a real Reset (Force, or neither Force nor Keep) *)
+Lemma checkout_ok : forall o s s', checkout o s = (None, s') -> co_mode o <> Soft ->
+  exists c t pv,
+    checkout_target o s = Some c /\ tree_of s c = Some t /\ commits s' = commits s /\
+    head_commit s' = Some c /\ agree (idx s') t /\
+    (forall p, lookup p (wt s') = wt_after (co_mode o) t pv (idx s) (wt s) p) /\
+    (co_mode o = Hard -> pv = tree_or_empty (head_tree s) \/ pv = t) /\
+    (co_mode o = Merge -> unstaged s = false).
+Proof.
+  intros o s s' H Hm. unfold checkout in H.
+  destruct (checkout_pre o s) as [[e|] [[[c m] from] s2]] eqn:Ep; [now inversion H|].
+  destruct (checkout_pre_ok _ _ _ _ _ _ Ep) as (-> & (t & Ht) & Hh & Hpv).
+  pose proof (checkout_pre_target _ _ _ _ _ _ Ep) as Htg.
+  destruct (checkout_pre_frame _ _ _ _ _ Ep) as (F1 & F2 & F3 & _).
+  destruct (reset_ok _ _ _ _ _ H Hm) as (c' & t' & s1 & R1 & R2 & R3 & R4 & R5 & R6 & R7 & R8 & R9 & _).
+  assert (c' = c).
+  { unfold reset_target in R1. destruct (c =? -1)%Z; congruence. }
+  subst c'. rewrite (tree_of_commits s2 s _ F1), Ht in R2. inversion R2; subst t'.
+  destruct (set_head_commit_ok _ _ _ R3) as (_ & _ & _ & S4).
+  exists c, t, (prev_of (co_mode o) from s2). repeat split; auto.
+  - congruence.
+  - unfold head_commit in *. now rewrite R5, R6.
+  - intro p. rewrite R8, F2, F3. reflexivity.
+  - intro X. rewrite X in *. destruct (Hpv eq_refl) as [Y|Y]; [now left|right]. congruence.
+  - intro X. rewrite <- (unstaged_frame s2 s F2 F3). auto.
+Qed.
